@@ -67,6 +67,49 @@ def _enclosing(ranges, line):
     return name
 
 
+def _loc_fn(block, ranges):
+    m = re.search(r"-->\s*\S+?:(\d+):(\d+)", block)
+    return _enclosing(ranges, int(m.group(1))) if m else None
+
+
+def _externalize(text, names):
+    """Replace the body of each named exec fn by `{ unimplemented!() }` and mark it external_body (contract kept)."""
+    from . import rustlex as L
+    for nm in sorted(names):
+        msk = L.mask(text)
+        m = re.search(r"(?m)^([ \t]*)((?:pub(?:\([^)]*\))?\s+)?fn\s+%s\b)" % re.escape(nm), msk)
+        if not m:
+            continue
+        # body '{' = first '{' at bracket depth 0 after the name that is followed by a balanced block ending the item;
+        # contracts contain braces only inside parens/brackets or `ensures ... {` blocks, so take the LAST top-level
+        # '{' before the matching end: walk forward tracking (), [] and skip `{..}` groups that are followed by ','
+        i = m.end()
+        depth = 0
+        body = -1
+        while i < len(msk):
+            ch = msk[i]
+            if ch in "([":
+                depth += 1
+            elif ch in ")]":
+                depth -= 1
+            elif ch == "{" and depth == 0:
+                e = L.match_brace(msk, i)
+                j = e + 1
+                while j < len(msk) and msk[j] in " \t":
+                    j += 1
+                if j < len(msk) and msk[j] == ",":
+                    i = e + 1
+                    continue
+                body = i
+                break
+            i += 1
+        if body < 0:
+            continue
+        e = L.match_brace(msk, body)
+        text = text[:m.start()] + m.group(1) + "#[verifier::external_body]\n" + text[m.start():body] + "{ unimplemented!() }" + text[e + 1:]
+    return text
+
+
 def run(scratch, obligations, tier="quick", jobs=8, log=print):
     results = {o.id: VResult(o) for o in obligations}
     units = {u.head["unit"]: u for u in X.load_units()}
@@ -78,7 +121,7 @@ def run(scratch, obligations, tier="quick", jobs=8, log=print):
     return results
 
 
-def _run_unit(scratch, u, obs, results, tier, jobs, log, extra_suffix=None):
+def _run_unit(scratch, u, obs, results, tier, jobs, log, extra_suffix=None, externalize=None, depth=0):
     uname = u.head["unit"]
     t0 = time.time()
     try:
@@ -89,6 +132,8 @@ def _run_unit(scratch, u, obs, results, tier, jobs, log, extra_suffix=None):
         return None
     if extra_suffix:
         text = extra_suffix(text)
+    if externalize:
+        text = _externalize(text, externalize)
     path = os.path.join(scratch.dir, "verus_%s.rs" % uname)
     with open(path, "w") as f:
         f.write(text)
@@ -147,6 +192,36 @@ def _run_unit(scratch, u, obs, results, tier, jobs, log, extra_suffix=None):
     if data is None or vr.get("encountered-vir-error") or (front_end and not vr.get("verified") and not breakdown):
         fatal = "undecided: verus front end rejected the extracted unit (unsupported construct or type error):\n" + \
                 "\n".join(front_end)[:1500]
+    if fatal and depth < 3:
+        # The front end rejected the unit. If every located error sits inside extracted exec functions, drop the bodies of
+        # exactly those functions (contract kept, obligations of those functions stay UNDECIDED) and decide the rest:
+        # one edited function that left the verifiable subset must not silence every other obligation of the unit.
+        exec_names = {f.name.split("::")[-1] for f in u.fns if not f.external_body}
+        bad = set()
+        located_all = bool(front_end)
+        for b in front_end:
+            m = re.search(r"-->\s*\S+?:(\d+):(\d+)", b)
+            fn = _enclosing(ranges, int(m.group(1))) if m else None
+            if b.startswith("error: aborting") or b.startswith("error: could not compile"):
+                continue
+            if fn and fn in exec_names:
+                bad.add(fn)
+            elif "For more information" in b or not b.startswith("error"):
+                continue
+            else:
+                located_all = False
+        bad -= set(externalize or ())
+        if bad and located_all:
+            log("  verus[%s]: front end rejected %s; retrying with those bodies dropped" % (uname, ", ".join(sorted(bad))))
+            allx = set(externalize or ()) | bad
+            text2 = _run_unit(scratch, u, obs, results, tier, jobs, log, extra_suffix, allx, depth + 1)
+            for o in obs:
+                if o.vfn in bad:
+                    r = results[o.id]
+                    r.status = "undecided"
+                    r.reason = "undecided: verus front end rejected this function (unsupported construct or type error):\n" + \
+                               "\n".join(x for x in front_end if _loc_fn(x, ranges) == o.vfn)[:1200]
+            return text2
     for o in obs:
         r = results[o.id]
         r.rewrites = rlog
